@@ -21,6 +21,7 @@ type thread struct {
 	done    bool // target function returned
 	blocked func() bool
 	blockOn string
+	onTicker bool // blocked on a ticker/timer channel whose delivery budget is used up
 	top     *frame
 	started bool
 }
@@ -184,10 +185,24 @@ func (m *machine) block(what string, ready func() bool) {
 
 func (m *machine) deadlock(what string) {
 	desc := ""
+	ticker := false
 	for _, t := range m.threads {
 		if !t.done && t.blocked != nil {
 			desc += fmt.Sprintf(" [%s blocked on %s]", t.name, t.blockOn)
+			if t.onTicker {
+				ticker = true
+			}
 		}
+	}
+	if ticker {
+		// not a deadlock of the program: the bound on timer deliveries is used up
+		panic(pathEnd{"ticks-exhausted", "a thread waits for a timer beyond the delivery bound" + desc})
+	}
+	if m.notes["allow_main_block"] == nil && !m.replaying() {
+		m.res.mu.Lock()
+		m.res.Obligations++
+		m.res.mu.Unlock()
+		m.violated("deadlock", "true", "all threads blocked ("+what+")"+desc)
 	}
 	if m.cur.id == 0 {
 		if m.notes["allow_main_block"] != nil {
@@ -265,7 +280,9 @@ func (m *machine) mutexUnlock(p *value) {
 		panic(targetPanic{iface{t: types.Typ[types.String], v: "sync: unlock of unlocked mutex"}})
 	}
 	ls.writer = 0
-	m.schedPoint("unlock")
+	// no scheduling point: for data-race-free code the steps between a release and
+	// the thread's next acquire touch no shared state, so switching at the next
+	// acquire covers the same behaviours
 }
 
 func (m *machine) rwRLock(p *value) {
@@ -283,7 +300,6 @@ func (m *machine) rwRUnlock(p *value) {
 		panic(targetPanic{iface{t: types.Typ[types.String], v: "sync: RUnlock of unlocked RWMutex"}})
 	}
 	ls.readers--
-	m.schedPoint("runlock")
 }
 
 // ---------------------------------------------------------------------------
@@ -347,7 +363,9 @@ func (m *machine) chanRecv(cv value, elem types.Type) (value, bool) {
 		m.block("receive from nil channel", func() bool { return false })
 	}
 	c.recvWait++
+	m.cur.onTicker = c.ticker
 	m.block("chan recv", func() bool { return c.canRecv(m) })
+	m.cur.onTicker = false
 	c.recvWait--
 	return m.takeFrom(c, elem)
 }
@@ -419,7 +437,13 @@ func (m *machine) doSelect(fr *frame, instr *ssa.Select) value {
 				k.c.recvWait++
 			}
 		}
+		for _, k := range cases {
+			if k.c != nil && k.c.ticker {
+				m.cur.onTicker = true
+			}
+		}
 		m.block("select", func() bool { return len(ready()) > 0 })
+		m.cur.onTicker = false
 		for _, k := range cases {
 			if k.c != nil && !k.send {
 				k.c.recvWait--
